@@ -7,6 +7,7 @@ statements are about the L0 model functions `insert_unchecked` / `insert_i` / `i
 -/
 import Micromap.Proofs.Unchecked
 import Micromap.Props.C03
+import Micromap.Proofs.UncheckedInv
 
 namespace Micromap.Props.C18
 open Micromap Micromap.Unchecked Micromap.Disjoint
@@ -219,5 +220,225 @@ example : (match insert exEnv 9 90 ⟨exRaw, { profile := .release }⟩ with
 /-- inside the contract (key present on the full map, release profile): no UB, old value back. -/
 example : (match insert_unchecked exEnv 8 81 ⟨exRaw, { profile := .release }⟩ with
     | .ok (some 80) _ => true | _ => false) = true := by rfl
+
+/-! ### histories that use the unsafe fast paths within their contract -/
+
+section Histories
+open Micromap.UncheckedInv
+variable (R : Render K V)
+
+/-! ### no `ub`, invariant preserved -/
+
+/-- **One step inside the contract.**  If all registers satisfy the invariant and the operation —
+    a safe one, `insert_unchecked` on a register that is not full or holds the key, or
+    `get_disjoint_unchecked_mut` with pairwise different requests — meets its contract in the
+    current state, the step does not reach `ub` and all registers satisfy the invariant
+    afterwards, whether the step returned, panicked or unwound from an injected panic.  Any user
+    equality, any world. -/
+theorem unchecked_step_inv {sys : Sys K V Q} (hs : SysInv E sys) (op : Op K V Q)
+    (hc : op.contractOk E sys) :
+    (step E R sys op).2.outcome ≠ .ub ∧ SysInv E (step E R sys op).1 :=
+  step_inv_contract E R hs op hc
+
+/-- **No history inside the contract reaches `ub`** — no dead slot is read, compared, returned or
+    dropped and nothing is written past the array — from any well-formed state, for any user
+    equality, any armed injections, either profile. -/
+theorem unchecked_history_no_ub (ops : List (Op K V Q)) (sys : Sys K V Q) (hs : SysInv E sys)
+    (hc : ContractAlong E R sys ops) : ∀ o, o ∈ (run E R sys ops).2 → o.outcome ≠ .ub :=
+  (run_inv_contract E R ops sys hs hc).1
+
+/-- the same from `new()` registers of any capacities. -/
+theorem unchecked_history_no_ub_init (capM capS : Nat → Nat) (w : World K V Q) (ops : List (Op K V Q))
+    (hc : ContractAlong E R (Sys.init capM capS w) ops) :
+    ∀ o, o ∈ (run E R (Sys.init capM capS w) ops).2 → o.outcome ≠ .ub :=
+  unchecked_history_no_ub E R ops _ (SysInv.init E capM capS w) hc
+
+/-- the invariant at the end of a history inside the contract (hence, by
+    `contractAlong_append`, after every prefix of it). -/
+theorem unchecked_history_inv (ops : List (Op K V Q)) (sys : Sys K V Q) (hs : SysInv E sys)
+    (hc : ContractAlong E R sys ops) : SysInv E (run E R sys ops).1 :=
+  (run_inv_contract E R ops sys hs hc).2
+
+/-- **Every state reached inside the contract is well-formed** (bounds and key uniqueness).  For
+    every map register and every set register after the history:
+    * `Safe`: `len ≤ capacity` and every slot below `len` holds a live pair — what every accessor
+      of the crate relies on;
+    * iteration yields exactly `len()` entries (the abstract list has length `len`);
+    * for a lawful key type whose `Clone` respects `Eq` (`E.Good`) the keys are pairwise unequal.
+    No hypothesis on the world: panics injected into user code at any point are covered. -/
+theorem unchecked_history_wf (ops : List (Op K V Q)) (sys : Sys K V Q) (hs : SysInv E sys)
+    (hc : ContractAlong E R sys ops) (i : Nat) :
+    let sys' := (run E R sys ops).1
+    (Safe (sys'.maps i) ∧ (sys'.maps i).len ≤ (sys'.maps i).cap ∧
+      (sys'.maps i).abs.length = (sys'.maps i).len ∧ (E.Good → NodupKeys E.keq (sys'.maps i).abs)) ∧
+    (Safe (sys'.sets i) ∧ (sys'.sets i).len ≤ (sys'.sets i).cap ∧
+      (sys'.sets i).abs.length = (sys'.sets i).len ∧ (E.Good → NodupKeys E.toUnit.keq (sys'.sets i).abs)) := by
+  intro sys'
+  have h := unchecked_history_inv E R ops sys hs hc
+  obtain ⟨hm, hn⟩ := (h.1 i).abs
+  obtain ⟨hm', hn'⟩ := (h.2 i).abs
+  exact ⟨⟨hm.safe, hm.safe.1, hm.1.symm, hn⟩, ⟨hm'.safe, hm'.safe.1, hm'.1.symm, fun hg => hn' hg.toUnit⟩⟩
+
+/-- after every PREFIX of a history inside the contract the registers are well-formed too. -/
+theorem unchecked_history_wf_prefix (ops₁ ops₂ : List (Op K V Q)) (sys : Sys K V Q) (hs : SysInv E sys)
+    (hc : ContractAlong E R sys (ops₁ ++ ops₂)) : SysInv E (run E R sys ops₁).1 :=
+  unchecked_history_inv E R ops₁ sys hs ((contractAlong_append E R ops₁ ops₂ sys).mp hc).1
+
+/-- `get_disjoint_unchecked_mut` needs NO contract for safety in this implementation: with
+    arbitrary requests (repeated ones included) the step — the call followed by a write through
+    every returned reference — does not reach `ub` and keeps the invariant.  (The contract only
+    matters for WHICH slots are returned, `get_disjoint_unchecked_eq` / `_agrees` in `C18.lean`.) -/
+theorem gdm_unchecked_step_inv {sys : Sys K V Q} (hs : SysInv E sys) (reg : Nat) (g : V → V)
+    (ks : List (Probe K Q)) :
+    (step E R sys (.map reg (.get_disjoint_mut true g ks))).2.outcome ≠ .ub ∧
+      SysInv E (step E R sys (.map reg (.get_disjoint_mut true g ks))).1 :=
+  step_inv_insertContract E R hs _ trivial
+
+/-- the documented wording of the contract suffices for a time-independent `==`: a history in
+    which every `insert_unchecked(k, _)` finds its register not full or `k` present in its abstract
+    list (`findKey … ≠ none`), and every `get_disjoint_unchecked_mut` gets pairwise unequal
+    requests, is inside the contract — in any world. -/
+theorem contractAlong_of_pure (hE : E.Pure) (ops : List (Op K V Q)) (sys : Sys K V Q) (hs : SysInv E sys)
+    (hc : ContractAlongPure E R sys ops) : ContractAlong E R sys ops :=
+  ContractAlong.of_pure E R hE ops sys hs hc
+
+/-! ### `insert_unchecked` refines to `insert` along histories -/
+
+/-- **One step**: on a register that is not full, or on which the scan finds the key,
+    `step (insert_unchecked k v) = step (insert k v)` — the same output record (outcome, returned
+    old value, events, callback count, touched registers) and the same next state, for ANY `==`,
+    any armed injection, either profile. -/
+theorem insert_unchecked_step_refines {sys : Sys K V Q} (hs : SysInv E sys) (reg : Nat) (k : K) (v : V)
+    (hc : (Op.map reg (.insert_unchecked k v) : Op K V Q).contractOk E sys) :
+    step E R sys (.map reg (.insert_unchecked k v)) = step E R sys (.map reg (.insert k v)) :=
+  step_insert_unchecked_eq E R reg (hs.1 reg) k v hc
+
+/-- with `debug_assert!` compiled in the two steps agree even OUTSIDE the contract (both panic
+    `.overflow` on a full map without the key, registers untouched). -/
+theorem insert_unchecked_step_refines_debug {sys : Sys K V Q} (hs : SysInv E sys) (reg : Nat) (k : K) (v : V)
+    (hd : sys.w.profile = .debug) :
+    step E R sys (.map reg (.insert_unchecked k v)) = step E R sys (.map reg (.insert k v)) :=
+  step_insert_unchecked_eq' E R reg (hs.1 reg) k v (Or.inr hd)
+
+/-- the same with the contract as documented (pure `==`): `len < cap` or the key is present. -/
+theorem insert_unchecked_step_refines_pure (hE : E.Pure) {sys : Sys K V Q} (hs : SysInv E sys) (reg : Nat)
+    (k : K) (v : V)
+    (hc : (sys.maps reg).len < (sys.maps reg).cap ∨ findKey E (sys.maps reg).abs (.key k : Probe K Q) ≠ none) :
+    step E R sys (.map reg (.insert_unchecked k v)) = step E R sys (.map reg (.insert k v)) :=
+  insert_unchecked_step_refines E R hs reg k v
+    (contractOk_of_pure E hE hs (op := .map reg (.insert_unchecked k v)) hc)
+
+/-- **Histories**: a history in which every `insert_unchecked` meets its contract produces
+    exactly the outputs (per step: outcome, return value, events, callback count; at `endCase`
+    the leak report) and the final register contents of the history with `insert` in its place
+    (`toChecked`).  Stronger than asked: no lawfulness and no benign world are needed. -/
+theorem insert_unchecked_history_refines (ops : List (Op K V Q)) (sys : Sys K V Q) (hs : SysInv E sys)
+    (hc : ContractAlong E R sys ops) : run E R sys ops = run E R sys (ops.map toChecked) :=
+  run_toChecked_eq E R ops sys hs (InsertContractAlong.of_contractAlong E R ops sys hc)
+
+/-- the history form for a lawful key type with the contract as documented. -/
+theorem insert_unchecked_history_refines_lawful (hE : E.Lawful) (ops : List (Op K V Q)) (sys : Sys K V Q)
+    (hs : SysInv E sys) (hc : ContractAlongPure E R sys ops) :
+    run E R sys ops = run E R sys (ops.map toChecked) :=
+  insert_unchecked_history_refines E R ops sys hs (contractAlong_of_pure E R hE.toPure ops sys hs hc)
+
+/-- a history without `get_disjoint_unchecked_mut` refines to a history of the SAFE API, to which
+    all history theorems of C01–C17 apply as they stand. -/
+theorem toChecked_history_safe (ops : List (Op K V Q))
+    (h : ∀ op, op ∈ ops → (∀ reg g ks, op ≠ .map reg (.get_disjoint_mut true g ks)) ∧
+      (∀ reg g ks, op ≠ .umap reg (.get_disjoint_mut true g ks))) :
+    ∀ op, op ∈ ops.map toChecked → op.safeApi = true := by
+  intro op hop
+  obtain ⟨op', hop', rfl⟩ := List.mem_map.mp hop
+  exact toChecked_safe op' (h op' hop').1 (h op' hop').2
+
+/-! ### the contract cannot be dropped -/
+
+/-- **Outside the contract the step is `ub`**: full register, key absent (pure `==`), no
+    injection armed, release profile — the system-level counterpart of
+    `insert_unchecked_ub_outside`.  With `unchecked_step_inv` this makes the contract of
+    `insert_unchecked` exactly the condition under which the step is defined. -/
+theorem step_insert_unchecked_ub_outside (hE : E.Pure) {sys : Sys K V Q} (reg : Nat)
+    (hs : Safe (sys.maps reg)) (hb : Benign sys.w) (k : K) (v : V)
+    (hfull : (sys.maps reg).len = (sys.maps reg).cap) (hrel : sys.w.profile = .release)
+    (habs : findKey E (sys.maps reg).abs (.key k : Probe K Q) = none) :
+    (step E R sys (.map reg (.insert_unchecked k v))).2.outcome = .ub := by
+  have h := insert_unchecked_ub_outside E hE (s := mapSt sys reg) hs.rep ⟨hb.1, hb.2⟩ k v
+    (by rw [← hs.rep.1]; exact hfull) hrel habs
+  have h2 : stepCore E R { sys with w := { sys.w with events := [] } } (.map reg (.insert_unchecked k v)) = .ub := by
+    show runOnMap _ reg _ = _
+    unfold runOnMap
+    have : stepMapOp E R sys.maps (.insert_unchecked k v) (mapSt sys reg) = .ub := by
+      show (insert_unchecked E k v >>= _) _ = _
+      simp only [bind_apply, h]
+    unfold mapSt at this
+    simp only [this]
+  unfold step
+  simp only [h2]
+
+/-- in that situation the contract indeed fails (it is not merely unprovable). -/
+theorem contract_fails_outside (hE : E.Pure) {sys : Sys K V Q} (hs : SysInv E sys) (reg : Nat)
+    (hb : Benign sys.w) (k : K) (v : V) (hfull : (sys.maps reg).len = (sys.maps reg).cap)
+    (hrel : sys.w.profile = .release)
+    (habs : findKey E (sys.maps reg).abs (.key k : Probe K Q) = none) :
+    ¬ (Op.map reg (.insert_unchecked k v) : Op K V Q).contractOk E sys := fun hc =>
+  let R0 : Render K V := ⟨fun _ _ => "", fun _ _ => "", fun _ => "", fun _ => ""⟩
+  (unchecked_step_inv E R0 hs _ hc).1
+    (step_insert_unchecked_ub_outside E R0 hE reg (hs.1 reg).safe hb k v hfull hrel habs)
+
+/-! ### non-vacuity on concrete data (tests, not proofs) -/
+
+def exR : Render Nat Nat :=
+  { dbgK := fun _ _ => "", dbgV := fun _ _ => "", dspK := fun _ => "", dspV := fun _ => "" }
+
+/-- two map and two set registers of capacity 2, fresh. -/
+def exSys (p : Profile) : Sys Nat Nat Nat := Sys.init (fun _ => 2) (fun _ => 2) { profile := p }
+
+/-- `insert`, `insert_unchecked` with room, `insert_unchecked` of a present key on the now FULL
+    map, `get_disjoint_unchecked_mut` with different keys (a hit and a miss), `insert_unchecked`
+    on a `Map<K, (), 2>`, then the end of the test case. -/
+def exHist : List (Op Nat Nat Nat) :=
+  [ .map 0 (.insert 7 70), .map 0 (.insert_unchecked 8 80), .map 0 (.insert_unchecked 8 81),
+    .map 0 (.get_disjoint_mut true (· + 1) [.key 8, .q 9, .key 7]),
+    .umap 1 (.insert_unchecked 3 ()), .endCase ]
+
+example : SysInv exEnv (exSys .release) := SysInv.init exEnv _ _ _
+
+/-- the history is inside the contract (documented form, checked by evaluation). -/
+example : ContractAlongPure exEnv exR (exSys .release) exHist :=
+  ⟨trivial, Or.inl (by decide +kernel), Or.inr (by decide +kernel),
+    (show Unequal exEnv _ by simp [Unequal, reqHit, Env.keq, Env.qeq, exEnv]), Or.inl (by decide +kernel),
+    trivial, trivial⟩
+
+example : ContractAlong exEnv exR (exSys .release) exHist :=
+  contractAlong_of_pure exEnv exR ⟨fun _ _ _ => rfl, fun _ _ _ => rfl⟩ _ _ (SysInv.init exEnv _ _ _)
+    ⟨trivial, Or.inl (by decide +kernel), Or.inr (by decide +kernel),
+      (show Unequal exEnv _ by simp [Unequal, reqHit, Env.keq, Env.qeq, exEnv]), Or.inl (by decide +kernel),
+      trivial, trivial⟩
+
+/-- what the history does, step by step (release profile). -/
+example : (run exEnv exR (exSys .release) exHist).2.map (·.outcome) = [.ok, .ok, .ok, .ok, .ok, .ok] := by
+  decide +kernel
+
+/-- outside the contract: the third pair goes into a full map of capacity 2. -/
+def exBad : List (Op Nat Nat Nat) :=
+  [ .map 0 (.insert 7 70), .map 0 (.insert 8 80), .map 0 (.insert_unchecked 9 90) ]
+
+/-- release build: the last step is `ub` … -/
+example : (run exEnv exR (exSys .release) exBad).2.map (·.outcome) = [.ok, .ok, .ub] := by decide +kernel
+
+/-- … so the history is not inside the contract … -/
+example : ¬ ContractAlong exEnv exR (exSys .release) exBad := fun h => by
+  have h1 := unchecked_history_no_ub exEnv exR exBad _ (SysInv.init exEnv _ _ _) h
+  have h2 : Outcome.ub ∈ (run exEnv exR (exSys .release) exBad).2.map (·.outcome) := by decide +kernel
+  obtain ⟨o, ho, hu⟩ := List.mem_map.mp h2
+  exact h1 o ho hu
+
+/-- … while with `debug_assert!` compiled in the same call panics like `insert` does. -/
+example : (run exEnv exR (exSys .debug) exBad).2.map (·.outcome) = [.ok, .ok, .panic .overflow] := by decide +kernel
+
+
+
+end Histories
 
 end Micromap.Props.C18
